@@ -753,6 +753,22 @@ func (uconn *UConn) SetTLSVers(minTLSVers, maxTLSVers uint16, specExtensions []T
 		}
 	}
 
+	// A spec may state a minimum below what its supported_versions extension
+	// advertises; never accept a version that is not offered on the wire.
+	for _, e := range specExtensions {
+		if ext, ok := e.(*SupportedVersionsExtension); ok {
+			lowest := uint16(0)
+			for _, vers := range ext.Versions {
+				if !isGREASEUint16(vers) && (lowest == 0 || vers < lowest) {
+					lowest = vers
+				}
+			}
+			if lowest > minTLSVers && lowest <= maxTLSVers {
+				minTLSVers = lowest
+			}
+		}
+	}
+
 	if minTLSVers < VersionTLS10 || minTLSVers > VersionTLS13 {
 		return fmt.Errorf("uTLS does not support 0x%X as min version", minTLSVers)
 	}
